@@ -139,7 +139,11 @@ def sweep(tier="quick", seed=0, unsupported=()):
     for kind in ("delta", "deltaplus", "single", "double"):
         for train in trains:
             for dt, delay in ((1.0, 0.0), (1.0, 2.5), (0.5, 1.0)):
-                for interp, (cob, sob), inplace in ((("previous", (-20.0, True), False)), ("nearest", (None, None), True), ("previous", (0.0, False), True)):
+                settings = [("previous", (-20.0, True), False), ("nearest", (None, None), True), ("previous", (0.0, False), True)]
+                if delay:
+                    # the two overbound values are independent settings: combinations where they disagree
+                    settings += [("previous", (0.0, True), False), ("nearest", (-20.0, False), True), ("previous", (None, True), False), ("nearest", (5.0, None), False)]
+                for interp, (cob, sob), inplace in settings:
                     sels = [0.0, delay] + ([0.25 * dt, dt, delay + 0.25, math.ceil(delay / dt) * dt if delay else 0.5, delay + 3.0] if delay else [0.5, 3.0])
                     cases += 1
                     f = run(kind, train, dt, delay, interp, cob, sob, inplace, sels)
